@@ -154,8 +154,27 @@ pub fn drive(name: &str, out: &str, args: &[String]) {
 fn panic_driver(out: &str, seed: u64, n: u64, len: u64) {
     let mut rng = StdRng::seed_from_u64(seed);
     let mut r = Recorder::new(&format!("{}/panic.trace", out), load_setup("panic"));
-    for _ in 0..n {
+    for sc in 0..n {
         r.begin(&[]);
+        if sc % 3 == 1 {
+            // scripted bursts: an earlier incident, a quiet stretch that is not a whole number of days, then pauses, extensions
+            // and admin unpauses in quick succession over a few hours (more than a day's allowance is attempted)
+            r.act(json!({"op":"panic_pause"}));
+            r.act(json!({"op":"tick","dt": rng.gen_range(1..4000)}));
+            r.act(json!({"op":"panic_unpause"}));
+            let days: i64 = *pick(&mut rng, &[1i64, 1, 2, 3]);
+            r.act(json!({"op":"tick","dt": days * 86400 + rng.gen_range(1..86399)}));
+            for _ in 0..rng.gen_range(4..9) {
+                r.act(json!({"op":"panic_pause"}));
+                r.act(json!({"op":"tick","dt": *pick(&mut rng, &[60i64, 600, 899, 1799, 1800])}));
+                if rng.gen_bool(0.6) {
+                    r.act(json!({"op":"panic_pause"}));
+                }
+                r.act(json!({"op": if rng.gen_bool(0.7) {"panic_unpause"} else {"panic_unpause_perm"}}));
+                r.act(json!({"op":"tick","dt": *pick(&mut rng, &[1i64, 600, 1800, 3600, 7200])}));
+                r.act(json!({"op":"deposit","acct":"A.G1","bank":"PB.G1","amount":1}));
+            }
+        }
         for _ in 0..len {
             let fs = r.ex.fee_state().unwrap();
             let now = r.ex.env.world.clock.unix_timestamp;
@@ -620,6 +639,7 @@ fn set_price(spec: &BankSpec, kind_fixed: bool, price: i64, conf: i64) -> Value 
 
 fn liq_driver(out: &str, seed: u64, n: u64) {
     let mut rng = StdRng::seed_from_u64(seed);
+    let mut rng2 = StdRng::seed_from_u64(seed ^ 0x5eed_c05c);
     let mut r = Recorder::new(&format!("{}/liq.trace", out), base_setup());
     let (mut nliq, mut nbk, mut nkill) = (0u64, 0u64, 0u64);
     for k in 0..n {
@@ -661,6 +681,16 @@ fn liq_driver(out: &str, seed: u64, n: u64) {
         if optin {
             extra.push(json!({"op":"configure_bank","bank":"D1","cfg":{"permissionless_bad_debt":true}}));
         }
+        // (own random stream, so that the scenarios above stay what they were) a second collateral bank for the episode
+        // "healthy only thanks to a deposit whose price then becomes unusable"
+        let c2spec = if rng2.gen_bool(0.45) {
+            let c2 = rand_bank_o(&mut rng2, "C2", true, BankOpts { quiet: true, small: false, weighted: true }, &mut extra);
+            let c2_fixed = extra.iter().any(|a| a["op"] == "set_fixed_price" && a["bank"] == "C2");
+            extra.push(json!({"op":"fund","user":"U1","mint":c2.mint,"amount":"4000000000000000000"}));
+            Some((c2, c2_fixed))
+        } else {
+            None
+        };
         r.begin(&extra);
         // borrow to (a fraction of) the limit
         let mkb = |x: u64| json!({"op":"borrow","acct":"A1","bank":"D1","amount":x});
@@ -773,6 +803,39 @@ fn liq_driver(out: &str, seed: u64, n: u64) {
             r.act(mkl(1));
         }
         r.act(json!({"op":"pulse_health","acct":"A1"}));
+        // an account that is healthy only thanks to a second deposit must not become liquidatable because that deposit's
+        // price turns stale, unauthentic or is substituted: the assessment has to fail (recorded side branches)
+        if let Some((c2, c2_fixed)) = &c2spec {
+            if !*c2_fixed {
+                let v1 = (camt as f64) * (c1.price as f64) * 10f64.powi(c1.expo) / 10f64.powi(c1.dec as i32);
+                let amt2 = (v1 * 1000.0 / ((c2.price as f64) * 10f64.powi(c2.expo)) * 10f64.powi(c2.dec as i32)).max(1000.0).min(3.0e18) as u64;
+                for variant in 0..3 {
+                    r.fork(&mut |r: &mut Recorder| {
+                        r.act(json!({"op":"deposit","acct":"A1","bank":"C2","amount":amt2}));
+                        r.act(liq1.clone());
+                        match variant {
+                            0 => {
+                                r.act(json!({"op":"tick","dt":100_000,"refresh_oracles":false}));
+                                r.act(json!({"op":"set_oracle","oracle":d1.oracle.clone(),"age":0}));
+                                if !c1_fixed {
+                                    r.act(json!({"op":"set_oracle","oracle":c1.oracle.clone(),"age":0}));
+                                }
+                            }
+                            1 => {
+                                r.act(json!({"op":"set_oracle","oracle":c2.oracle.clone(),"discr_ok":false}));
+                            }
+                            _ => {}
+                        }
+                        let mut l = liq1.clone();
+                        if variant == 2 {
+                            l["oracle_sub"] = json!({"C2": d1.oracle.clone()});
+                        }
+                        r.act(l);
+                        r.act(json!({"op":"pulse_health","acct":"A1"}));
+                    });
+                }
+            }
+        }
         // the exact over-liquidation boundary: seize floor(balance), ceil(balance), ceil(balance)+1 of whatever collateral is left
         // (interest is brought up to now first so that the balance the handler sees is the one computed here)
         r.act(json!({"op":"accrue","bank":"C1"}));
@@ -902,6 +965,7 @@ fn liq_driver(out: &str, seed: u64, n: u64) {
 // ------------------------------------------------------------------------------------------------
 fn admin_driver(out: &str, seed: u64, n: u64) {
     let mut rng = StdRng::seed_from_u64(seed);
+    let mut rng2 = StdRng::seed_from_u64(seed ^ 0xde1e_7e);
     let mut r = Recorder::new(&format!("{}/admin.trace", out), load_setup("auth"));
     let words: Vec<u64> = vec![0, 1, 2, 3, 1 << 2, 1 << 3, 1 << 4, 1 << 5, 1 << 6, 8 | 2, 16 | 1, u64::MAX, 1 << 63, 0xff];
     for k in 0..n {
@@ -1003,6 +1067,19 @@ fn admin_driver(out: &str, seed: u64, n: u64) {
                     }
                 };
                 r.act(json!({"op":"inject_bank","bank":b,"fee_ins":mk(&mut rng),"fee_grp":mk(&mut rng),"fee_prog":mk(&mut rng)}));
+                // (own random stream) the fee admin rotates the protocol's fee wallet; until somebody propagates the change the
+                // group still caches the old one - program fees must follow the fee state, not the copy (recorded side branch)
+                if rng2.gen_bool(0.5) {
+                    let propagate_first = rng2.gen_bool(0.3);
+                    r.fork(&mut |r: &mut Recorder| {
+                        r.act(json!({"op":"edit_fee_state","admin":"feeadmin","wallet":"feewallet2","prog_fixed":"0.01","prog_rate":"0.025","liq_max_fee":"0.05","bank_init_fee":1000,"liq_flat_fee":500}));
+                        if propagate_first {
+                            r.act(json!({"op":"propagate_fee","group":"G1"}));
+                        }
+                        r.act(json!({"op":"collect_fees","bank":b,"fee_ata_of":"cache"}));
+                        r.act(json!({"op":"collect_fees","bank":b}));
+                    });
+                }
                 r.act(json!({"op":"collect_fees","bank":b}));
                 r.act(json!({"op":"collect_fees","bank":b,"fee_ata":"U1.M1"}));
                 for _ in 0..4 {
@@ -1027,6 +1104,11 @@ fn admin_driver(out: &str, seed: u64, n: u64) {
                 // ---- forced deleverage by the risk admin with a daily limit
                 let limit = *pick(&mut rng, &[0u64, 1, 5, 50]);
                 r.act(json!({"op":"delev_limit","group":"G1","limit":limit}));
+                // (own random stream) sometimes the limit then sits unused for several days before a burst of withdrawals
+                let idle = rng2.gen_bool(0.4);
+                if idle {
+                    r.act(json!({"op":"tick","dt": rng2.gen_range(2i64..5) * 86400 + rng2.gen_range(1i64..80000)}));
+                }
                 for _ in 0..rng.gen_range(1..5) {
                     let acct = *pick(&mut rng, &["A2", "A3"]);
                     let wamt = *pick(&mut rng, &[1u64, 100_000, 499_999, 1_000_000, 4_000_000]); // B2 units ($7 per 1e6)
@@ -1088,6 +1170,7 @@ fn admin_driver(out: &str, seed: u64, n: u64) {
 fn curve_driver(out: &str, seed: u64, n: u64) {
     use fixed::types::I80F48;
     let mut rng = StdRng::seed_from_u64(seed);
+    let mut rng2 = StdRng::seed_from_u64(seed ^ 0xc18d);
     let mut r = Recorder::new(&format!("{}/curve.trace", out), vec![]);
     r.begin(&[]);
     let fx = |v: I80F48| crate::num::big_i(v.to_bits());
@@ -1116,6 +1199,22 @@ fn curve_driver(out: &str, seed: u64, n: u64) {
             2 if !pts.is_empty() => { pts[0].1 = pts[0].1.wrapping_add(rng.gen()); }
             3 if pts.len() >= 2 => { pts[0] = (0, 0); }
             _ => {}
+        }
+        // (own random stream) one defect at a random position of an otherwise valid curve: last point above the hundred rate,
+        // first point below the zero rate, a rate dip, equal utilizations, a padding hole, a point at utilization 0 with a rate
+        let (mut zero, mut hundred) = (zero, hundred);
+        if rng2.gen_bool(0.25) {
+            let d: u32 = *pick(&mut rng2, &[1u32, 1, 1000, 1 << 20]);
+            let j = if pts.is_empty() { 0 } else { rng2.gen_range(0..pts.len()) };
+            match rng2.gen_range(0..7) {
+                0 if !pts.is_empty() && hundred < u32::MAX => { let l = pts.len() - 1; pts[l].1 = hundred.saturating_add(d); }
+                1 if !pts.is_empty() && zero > 0 => { pts[0].1 = zero.saturating_sub(d.min(zero)); }
+                2 if pts.len() >= 2 && j + 1 < pts.len() && pts[j].1 < u32::MAX => { pts[j + 1].1 = pts[j].1.saturating_sub(d.min(pts[j].1)); pts[j].1 = pts[j].1.max(pts[j + 1].1 + 1); }
+                3 if pts.len() >= 2 && j + 1 < pts.len() => { pts[j + 1].0 = pts[j].0; }
+                4 if pts.len() >= 2 => { pts.insert(j, (0, 0)); pts.truncate(5); }
+                5 if !pts.is_empty() => { pts[j].0 = 0; }
+                _ => { if hundred > 0 { zero = hundred; hundred = hundred - d.min(hundred); } }
+            }
         }
         let bu = |v: u32| crate::num::big_u(v as u128);
         let mut p5: Vec<Value> = pts.iter().map(|(u, r)| json!([bu(*u), bu(*r)])).collect();
@@ -1390,6 +1489,56 @@ fn struct_driver(out: &str, seed: u64, n: u64) {
             continue;
         }
         let liq = |b: &str, amt: u64| json!({"op":"liquidate","liquidator":"Q","liquidatee":"L","asset_bank":b,"liab_bank":"D","amount":amt});
+        if k % 5 == 4 {
+            // a liquidator that holds positions in neither liquidation bank opens two at once (the seized collateral and a
+            // debt in the liability bank) next to two or three it already has; if the program refuses the canonical account
+            // order, every other order is tried, as a client would (the first accepted one is recorded)
+            for i in 1..=9 {
+                r.act(json!({"op":"set_fixed_price","bank":format!("T{}", i),"price":"3/4"}));
+            }
+            let mut order: Vec<usize> = (1..=10).collect();
+            for i in (1..order.len()).rev() {
+                order.swap(i, rng.gen_range(0..=i));
+            }
+            let nhold = rng.gen_range(2..=3);
+            for &i in order[..nhold].iter() {
+                r.act(json!({"op":"deposit","acct":"L2","bank":format!("T{}", i),"amount":200_000_000u64}));
+            }
+            let targets: Vec<usize> = order[nhold..].iter().copied().filter(|&i| i <= 9).take(2).collect();
+            for (j, &t) in targets.iter().enumerate() {
+                let l = json!({"op":"liquidate","liquidator":"L2","liquidatee":"L","asset_bank":format!("T{}", t),"liab_bank":"D","amount":1000 + j as u64});
+                let ev = r.probe(&l);
+                if ev["res"] == "ok" {
+                    r.act(l);
+                } else {
+                    r.act(l.clone());
+                    let npos = nhold + 2 - j.min(1);   // after the first liquidation the debt position exists
+                    let mut perm: Vec<usize> = (0..npos).collect();
+                    let mut found = false;
+                    // all permutations (Heap's algorithm, at most 120)
+                    let mut c = vec![0usize; npos];
+                    let mut i = 0;
+                    while i < npos && !found {
+                        if c[i] < i {
+                            if i % 2 == 0 { perm.swap(0, i) } else { perm.swap(c[i], i) }
+                            let mut l2 = l.clone();
+                            l2["rem_perm"] = json!({"L2": perm.clone()});
+                            if r.probe(&l2)["res"] == "ok" {
+                                r.act(l2);
+                                found = true;
+                            }
+                            c[i] += 1;
+                            i = 0;
+                        } else {
+                            c[i] = 0;
+                            i += 1;
+                        }
+                    }
+                }
+                r.act(json!({"op":"pulse_health","acct":"L2"}));
+            }
+            continue;
+        }
         if k % 2 == 0 {
             // integration tags: 9 collateral banks re-tagged with a random mix of Kamino / Drift / Solend tags
             let mut order: Vec<usize> = (1..=9).collect();
